@@ -34,7 +34,7 @@ impl C11 {
         C11 {
             tier,
             seed,
-            n: scaled(tier.pick(900, 40_000), scale),
+            n: scaled(tier.pick(12_000, 300_000), scale),
         }
     }
 
